@@ -3,7 +3,7 @@
 
 Reads  $VERIF_REPO/src/pydsol/core/streams.py  (default /repo) with Python's `ast` module -- the module
 under test is never imported; CR LF line ends are normalised -- and translates the bodies of the methods
-the hand-written models Streams/Stream.v (C12) and Streams/Seeds.v (C13) transcribe (see CLASSES) into
+the hand-written models Streams/Stream.v, Streams/Info.v (C12) and Streams/Seeds.v (C13) transcribe (see CLASSES) into
 Gallina definitions  gen_<Class>_<method>  over the models' own types: the abstract generator
 (`raw : Z -> nat -> Z`, state `gstate` = (seed, position)), the wrapper state `stream`, the name / entry /
 `res` types of the seed model.  coq/Streams/GenAgree.v then proves every generated definition equal to
@@ -38,6 +38,14 @@ Supported subset (anything else fails)
                `self.update_seed(..)` in StreamUpdater (abstract: a function parameter self_update_seed --
                whatever the subclass defines); `<updater attribute>.update_seed(id, stream, r)` (an
                updater object is a function name -> original seed -> r -> res: py_call_updater)
+               `C(args)` for a translated class C with a record state (MersenneTwister(10)) inside a class whose model has
+               a store of objects: a blank object goes through the generated __init__ and is appended to the store
+               (py_alloc), the value is its index; `self._d = {}`, `self._d[k] = obj`, `self._d[k]` for a dict attribute
+               name -> stream object (info_set / info_get, KeyError when absent); str literals (their code points);
+               `super().__init__(..)` of a translated base class inside __init__
+  defaults     the default value of a parameter is part of the translation (gen_<C>_<m>__default_<p>): it is evaluated
+               once, at definition time, so only the immutable `None` is accepted -- an object built there would be
+               shared by every call that omits the argument
 Meaning given to them
   * every definition answers a pair (frame, Ret value | Exc kind): the frame is the state the method may
     change -- the wrapper state for MersenneTwister (assignments to `self._x` become let-bound new versions
